@@ -61,3 +61,50 @@ def reflect_bool_method(repo, method, extra_params=(('name', 'int'),), fname=Non
         body = z3.If(M.is_(cn, p), arm, body)
     J.define([p] + xs, body, dec=0)
     return J
+
+
+# ---- Rust side ------------------------------------------------------------------------------------------------------------------
+def reflect_rs_bool_methods(prog, names, extra=1):
+    """Reflect pure recursive `impl Pattern` predicates (possibly mutually recursive) into logical functions over MPat."""
+    from .rsfe import RsInterp
+    fns = {}
+    for n in names:
+        fns[n] = SpecFn('RS_' + n, *([MPat] + [Int] * extra + [Bool]))
+    p = z3.Const('rsp', MPat)
+    xs = [z3.Int('rsx%d' % i) for i in range(extra)]
+
+    class _C:
+        def __init__(self, f):
+            self.f = f
+
+        def apply_rs(self, interp, ctx, args):
+            return SV(self.f(args[0].t, *[interp.zint(a) for a in args[1:]]), 'bool')
+    contracts = {f'Pattern::{n}': _C(f) for n, f in fns.items()}
+    for n, J in fns.items():
+        fn = prog.fns.get(f'Pattern::{n}')
+        if fn is None:
+            raise ReflectError(f'Pattern::{n} not found')
+        body = z3.BoolVal(False)
+        for cn in reversed(CTORS):
+            def unit(ctx, cn=cn):
+                interp = RsInterp(prog, ctx, contracts)
+                ctx.known_ctor[p.get_id()] = (p, cn)
+                return interp.run_fn(fn, [SV(x, 'int') for x in xs], selfv=SV(p, 'mpat'))
+            paths = explore(unit, f'reflect:Pattern::{n}/{cn}')
+            arm = None
+            for pr in reversed(paths):
+                if pr.outcome[0] == 'infeasible':
+                    continue
+                if pr.outcome[0] != 'return':
+                    raise ReflectError(f'Pattern::{n}/{cn}: path outcome {pr.outcome}')
+                v = pr.outcome[1]
+                vt = z3.BoolVal(v) if isinstance(v, bool) else (v.t if isinstance(v, SV) and v.kind == 'bool' else None)
+                if vt is None:
+                    raise ReflectError(f'Pattern::{n}/{cn}: non-boolean result {v!r}')
+                cond = z3.And(*pr.ctx.pc) if pr.ctx.pc else z3.BoolVal(True)
+                arm = vt if arm is None else z3.If(cond, vt, arm)
+            if arm is None:
+                raise ReflectError(f'Pattern::{n}/{cn}: no path')
+            body = z3.If(M.is_(cn, p), arm, body)
+        J.define([p] + xs, body, dec=0)
+    return fns
